@@ -167,4 +167,4 @@ FI = Contract("C03", LINUX_PY, "Process.*", name="_pslinux.Process.* under injec
                        "query raises NoSuchProcess"],
               replay="c03:faults", note="bounded: fault enumeration on a fake procfs")
 BOUNDED_CONTRACTS = [FI]
-BOUNDED = [bounded_sweep(FI, "c03:faults", quick=400, thorough=6000)]
+BOUNDED = [bounded_sweep(FI, "c03:faults", quick=1500, thorough=12000)]
